@@ -61,6 +61,7 @@ def _paragraph_text(ex):
 contract(Contract(
     target=N + "render_paragraph",
     props=["C01", "C10", "C12"],
+    assumes=['inline render methods assign no renderer field but _current_inline_text (ST obligations inline_renderers_frame of props/C01)', 'the line wrapper is an uninterpreted function of (text, initial prefix, subsequent prefix); its own contract is W / V'],
     params={"element": "ref:ParagraphEl"},
     self_cls="MarkdownNormalizer",
     setup=setup_no_wrapper,
